@@ -388,11 +388,24 @@ def run_workload(side, case, tmpdir, n):
     return out
 
 
+def _remove_stale_tmpdirs(max_age=2 * 3600):
+    """socket directories of workers that were killed before they could clean up"""
+    import glob
+    now = time.time()
+    for d in glob.glob("/var/tmp/verif-c11-*"):
+        try:
+            if now - os.stat(d).st_mtime > max_age:
+                shutil.rmtree(d, ignore_errors=True)
+        except OSError:
+            pass
+
+
 def main(argv):
     which = argv[0]
     out = os.fdopen(os.dup(1), "w")
     os.dup2(2, 1)
     sys.stdout = sys.stderr
+    _remove_stale_tmpdirs()
     tmpdir = tempfile.mkdtemp(prefix="verif-c11-", dir="/var/tmp")
     hello = {"hello": False}
     try:
